@@ -20,6 +20,7 @@ func c17(r *core.Report) {
 	c17Sec(r)
 	c17Order(r)
 	c17Content(r)
+	c17Pure(r)
 }
 
 // c17Counterparts: which source struct (other specification version) a target struct literal is a
@@ -880,4 +881,257 @@ func c17Content(r *core.Report) {
 			r.Trivial("content:none", "-", "no constant media-type lookup in the FromV3 functions")
 		}
 	})
+}
+
+// c17Pure: converting does not change the document being converted.
+func c17Pure(r *core.Report) {
+	p := r.Prog
+	info := p.Pkg("openapi2conv").TypesInfo
+	r.RunRule("C17.pure", "the source document is read-only: in the ToV3*/FromV3* functions no assignment writes a field or element reached from a parameter that holds (part of) the document being converted, and no element is written into a target map that was taken over from the source without a copy; a conversion that edits its input gives a different result when the same object is converted again (a schema shared by several media types, a second FromV3)", 1, func() {
+		n := 0
+		for _, d := range p.AllDecls("openapi2conv") {
+			name := d.Name.Name
+			var srcV string
+			switch {
+			case strings.HasPrefix(name, "ToV3") || strings.HasPrefix(name, "toV3"):
+				srcV = "v2"
+			case strings.HasPrefix(name, "FromV3") || strings.HasPrefix(name, "fromV3"):
+				srcV = "v3"
+			default:
+				continue
+			}
+			// parameters of the source version
+			srcParams := map[types.Object]bool{}
+			for _, fl := range d.Type.Params.List {
+				for _, nm := range fl.Names {
+					o := info.Defs[nm]
+					if o == nil {
+						continue
+					}
+					if nn := core.NamedOf(o.Type()); nn != nil && versionOf(nn) == srcV {
+						// openapi3 types are used inside openapi2 documents too (additionalProperties):
+						// a v3-typed parameter of a ToV3 function is still source material
+						srcParams[o] = true
+					}
+					if srcV == "v2" {
+						if nn := core.NamedOf(o.Type()); nn != nil && versionOf(nn) == "v3" && (nn.Obj().Name() == "AdditionalProperties" || nn.Obj().Name() == "SchemaRef") && strings.HasPrefix(name, "toV3") {
+							srcParams[o] = true
+						}
+					}
+				}
+			}
+			if len(srcParams) == 0 {
+				continue
+			}
+			ff := core.NewFuncFacts(p, info, d)
+			lits := collectLits(p, info, d)
+			perFn := 0
+			ast.Inspect(d.Body, func(nd ast.Node) bool {
+				if c, ok := nd.(*ast.CallExpr); ok && core.IsBuiltin(info, c, "delete") && len(c.Args) == 2 {
+					m := ast.Unparen(c.Args[0])
+					root := core.RootIdent(m)
+					if root != nil {
+						ro := info.ObjectOf(root)
+						src := srcParams[ro] || aliasesSource(ff, info, ro, srcParams)
+						if !src {
+							// a target field that still holds the source's map
+							if sel, ok := m.(*ast.SelectorExpr); ok {
+								for _, lt := range lits {
+									if lt.holder != nil && lt.holder == ro {
+										for _, ve := range lt.values[sel.Sel.Name] {
+											if vs, ok := ast.Unparen(ve).(*ast.SelectorExpr); ok && ve.Pos() < c.Pos() {
+												if vr := core.RootIdent(vs); vr != nil && (srcParams[info.ObjectOf(vr)] || aliasesSource(ff, info, info.ObjectOf(vr), srcParams)) {
+													src = true
+												}
+											}
+										}
+									}
+								}
+							}
+						}
+						if src {
+							n++
+							perFn++
+							r.Bad(fmt.Sprintf("pure:%s#%d", name, perFn), p.Pos(c.Pos()), fmt.Sprintf("%s deletes from %s, a map of the document it is converting", name, core.ExprStr(m)))
+						}
+					}
+					return true
+				}
+				as, ok := nd.(*ast.AssignStmt)
+				if !ok {
+					return true
+				}
+				for _, l := range as.Lhs {
+					e := ast.Unparen(l)
+					isIndex := false
+					if ix, ok := e.(*ast.IndexExpr); ok {
+						e = ast.Unparen(ix.X)
+						isIndex = true
+					}
+					sel, ok := e.(*ast.SelectorExpr)
+					if !ok {
+						continue
+					}
+					root := core.RootIdent(sel)
+					if root == nil {
+						continue
+					}
+					ro := info.ObjectOf(root)
+					// (a) a write below a source parameter (or a local that aliases part of it)
+					if srcParams[ro] || aliasesSource(ff, info, ro, srcParams) {
+						n++
+						perFn++
+						r.Bad(fmt.Sprintf("pure:%s#%d", name, perFn), p.Pos(as.Pos()), fmt.Sprintf("%s assigns %s, part of the document it is converting: the input is different after the conversion", name, core.ExprStr(l)))
+						continue
+					}
+					// (b) an element written into a target map that is the source's own map
+					if isIndex {
+						for _, lt := range lits {
+							if lt.holder == nil || lt.holder != ro {
+								continue
+							}
+							for _, ve := range lt.values[sel.Sel.Name] {
+								if vs, ok := ast.Unparen(ve).(*ast.SelectorExpr); ok {
+									if vr := core.RootIdent(vs); vr != nil && (srcParams[info.ObjectOf(vr)] || aliasesSource(ff, info, info.ObjectOf(vr), srcParams)) {
+										if _, isMap := info.TypeOf(vs).Underlying().(*types.Map); isMap && ve.Pos() < as.Pos() {
+											// unless the field was re-assigned a fresh map in between on every path: look for a dominating unconditional reassignment
+											fresh := false
+											for _, ve2 := range lt.values[sel.Sel.Name] {
+												if ve2.Pos() > ve.Pos() && ve2.Pos() < as.Pos() {
+													if _, isSel := ast.Unparen(ve2).(*ast.SelectorExpr); !isSel && ve2 != as.Rhs[0] {
+														// a reassignment exists; it protects only if it is not under a condition the store is not under
+														sp := core.PathTo(d.Body, ve2)
+														cond := false
+														for _, anc := range sp {
+															if ifs, ok := anc.(*ast.IfStmt); ok && !(ifs.Pos() <= as.Pos() && as.End() <= ifs.End() && containsNode(ifs.Body, as)) {
+																cond = true
+															}
+														}
+														if !cond {
+															fresh = true
+														}
+													}
+												}
+											}
+											if !fresh {
+												n++
+												perFn++
+												r.Bad(fmt.Sprintf("pure:%s#%d", name, perFn), p.Pos(as.Pos()), fmt.Sprintf("%s writes %s, but %s.%s still is the source's own map (%s): the element lands in the document being converted", name, core.ExprStr(l), root.Name, sel.Sel.Name, core.ExprStr(ve)))
+											}
+										}
+									}
+								}
+							}
+						}
+					}
+				}
+				return true
+			})
+		}
+		// helpers that receive a source map must not edit it in place
+		for _, d := range p.AllDecls("openapi2conv") {
+			perFn := 0
+			mapParams := map[types.Object]bool{}
+			for _, fl := range d.Type.Params.List {
+				for _, nm := range fl.Names {
+					if o := info.Defs[nm]; o != nil {
+						// extension maps (map[string]any) are handed over from the source document as they are
+						if mt, isMap := o.Type().Underlying().(*types.Map); isMap {
+							if it, ok := mt.Elem().Underlying().(*types.Interface); ok && it.Empty() {
+								mapParams[o] = true
+							}
+						}
+					}
+				}
+			}
+			if len(mapParams) == 0 {
+				continue
+			}
+			ast.Inspect(d.Body, func(nd ast.Node) bool {
+				switch x := nd.(type) {
+				case *ast.CallExpr:
+					if core.IsBuiltin(info, x, "delete") && len(x.Args) == 2 {
+						if id, ok := ast.Unparen(x.Args[0]).(*ast.Ident); ok && mapParams[info.ObjectOf(id)] {
+							n++
+							perFn++
+							r.Bad(fmt.Sprintf("pure:%s/param#%d", d.Name.Name, perFn), p.Pos(x.Pos()), d.Name.Name+" deletes from the map it was given: its callers pass maps of the document being converted")
+						}
+					}
+				case *ast.AssignStmt:
+					for _, l := range x.Lhs {
+						if ix, ok := ast.Unparen(l).(*ast.IndexExpr); ok {
+							if id, ok := ast.Unparen(ix.X).(*ast.Ident); ok && mapParams[info.ObjectOf(id)] {
+								// writing into a map the caller created for the result is fine when the parameter is the result collector
+								if strings.HasPrefix(d.Name.Name, "add") {
+									continue
+								}
+								n++
+								perFn++
+								r.Bad(fmt.Sprintf("pure:%s/param#%d", d.Name.Name, perFn), p.Pos(x.Pos()), d.Name.Name+" writes into the map it was given: its callers pass maps of the document being converted")
+							}
+						}
+					}
+				}
+				return true
+			})
+		}
+		if n == 0 {
+			r.OK("pure:openapi2conv", "-", "no conversion function writes into its source")
+		}
+	})
+}
+
+func containsNode(root ast.Node, n ast.Node) bool {
+	found := false
+	ast.Inspect(root, func(m ast.Node) bool {
+		if m == n {
+			found = true
+		}
+		return !found
+	})
+	return found
+}
+
+// aliasesSource: local o is only ever assigned (pointers into) a source parameter: x := param.Value,
+// x := param.Field[k], range element of a source collection.
+func aliasesSource(ff *core.FuncFacts, info *types.Info, o types.Object, src map[types.Object]bool) bool {
+	as := ff.Assigns(o)
+	if len(as) == 0 {
+		return false
+	}
+	for _, a := range as {
+		var e ast.Expr
+		switch {
+		case a.Rhs != nil:
+			e = a.Rhs
+		case a.RangeOf != nil && !a.IsKey:
+			e = a.RangeOf
+		case a.MapIndex != nil:
+			e = a.MapIndex
+		default:
+			return false
+		}
+		// pointer-typed or map-typed alias only (a copied value is not an alias)
+		switch o.Type().Underlying().(type) {
+		case *types.Pointer, *types.Map, *types.Slice:
+		default:
+			return false
+		}
+		// must be a plain access path, not a call result
+		ok := true
+		ast.Inspect(e, func(n ast.Node) bool {
+			if _, isCall := n.(*ast.CallExpr); isCall {
+				ok = false
+			}
+			return ok
+		})
+		if !ok {
+			return false
+		}
+		root := core.RootIdent(e)
+		if root == nil || !src[info.ObjectOf(root)] {
+			return false
+		}
+	}
+	return true
 }
